@@ -82,16 +82,20 @@ def work_sets(spec, part):
     from . import macrocommon
     r = common.rng(spec["seed"], "C12sets", spec["chunk"])
     srcs = [set_source(r) for _ in range(spec["n"])]
-    cases = [{"mode": "macro", "main": "main", "files": {"main": t}, "opts": [("passes", 60), ("streams", 1), ("maxevents", 80)]} for t in srcs]
+    # every third set gets a budget of 1-3 passes, fewer than it has uses: the budget error and the non-linear errors have to coexist
+    budgets = [60 if i % 3 else r.randint(1, 3) for i in range(len(srcs))]
+    cases = [{"mode": "macro", "main": "main", "files": {"main": t}, "opts": [("passes", b), ("streams", 1), ("maxevents", 80)]} for t, b in zip(srcs, budgets)]
     outs, _ = common.run_batch(cases)
-    for text, case, o in zip(srcs, cases, outs):
+    for text, case, o, budget_ in zip(srcs, cases, outs, budgets):
         part["evals"] += 1
         if common.abnormal(ID, case, o, part, "while compiling a set of macro patterns"):
             continue
-        rp = macrocommon.replay({"main": text}, "main", o, 60)
+        rp = macrocommon.replay({"main": text}, "main", o, budget_)
         if rp.nj:
             part["stats"]["nj:" + rp.nj.split(":")[0]] += 1
             continue
+        if budget_ < 60 and any(e[0] == macrocommon.MAX_PASSES for e in o["app_errors"]):
+            part["stats"]["sets:budget-exhausted-beside-rejected-patterns"] += 1 if rp.rejected else 0
         if rp.problems:
             sig, msg = rp.problems[0]
             part["violations"].append({"signature": "sets:" + sig, "message": msg, "case": common.slim_case(case)})
